@@ -114,6 +114,9 @@ def gen_asi_tokens():
         dec = "self.nesting_depth=self.nesting_depth.saturating_sub(1)" in flat
         # `{`: save the ( [ depth of the enclosing code and start the block at depth 0
         save = "self.brace_stack.push(" in flat and "self.nesting_depth=0" in flat
+        if save and re.search(r"\b(if|match|while|for)\b", arm):
+            # the model saves and resets unconditionally; a guarded save is a different machine
+            raise extract.ExtractError(f"arm for {ch!r} saves the ( [ depth under a condition; Model/Asi.v saves it at every `{{`")
         # `}`: restore it (nothing happens when there is no open `{`)
         restore = "self.brace_stack.pop()" in flat and re.search(r"self\.nesting_depth=\w+", flat) is not None and not save
         if ("nesting_depth" in arm or "brace_stack" in arm) and [inc, dec, save, restore].count(True) != 1:
